@@ -28,7 +28,7 @@ from __future__ import annotations
 import ast
 from dataclasses import dataclass, field
 
-from .model import Model, Func, norm
+from .model import Model, Func, norm, call_args
 from .report import Ob, OK, VIOLATED, ERROR, INFO
 from .e5.sym import P, ONE, ZERO, Facts
 
@@ -131,8 +131,9 @@ class Ranges:
                     nm["Rm"] = t
         for n in ast.walk(f.node):
             if isinstance(n, ast.Assign) and len(n.targets) == 1 and isinstance(n.targets[0], ast.Subscript) and isinstance(n.targets[0].value, ast.Name) \
-                    and isinstance(n.value, ast.Call) and norm(n.value.func).endswith("reshape") and len(n.value.args) == 2 and isinstance(n.value.args[1], ast.List):
-                el = n.value.args[1].elts
+                    and isinstance(n.value, ast.Call) and call_args(n.value, "reshape") and len(call_args(n.value, "reshape")) == 2 \
+                    and isinstance(call_args(n.value, "reshape")[1], ast.List):
+                el = call_args(n.value, "reshape")[1].elts
                 if len(el) == 3 and all(isinstance(e, ast.Subscript) and isinstance(e.value, ast.Name) for e in el) and el[0].value.id == el[2].value.id:
                     nm["cores"], nm["rank"], nm["N"] = n.targets[0].value.id, el[0].value.id, el[1].value.id
                     break
